@@ -296,6 +296,45 @@ fn check_tape(tape: &[u8], gates: &Gates, codes: &[String], stats: &mut Stats, c
             }
         }
     }
+    // (b4) a directory with an entry that cannot be loaded (a link that points nowhere, a file whose
+    // byte-order mark is followed by bytes that do not decode): the directory is the list of its
+    // entries, and a path that cannot be read makes the command fail - with a coded diagnostic, no OK
+    if choice.ratio(1, 6) && gates.want("DIRECTORY_WITH_UNLOADABLE_ENTRY") {
+        let bad = dir.path.join("unloadable");
+        let _ = std::fs::create_dir_all(&bad);
+        for (i, f) in files.iter().enumerate() {
+            let _ = std::fs::write(bad.join(crate::drive::set_file_name(i)), f.text.as_bytes());
+        }
+        let entry = bad.join(*choice.pick(&["zz_entry.st", "aa_entry.st", "entry.ST"]));
+        let made = match choice.below(3) {
+            0 => std::os::unix::fs::symlink(dir.path.join("no_such_target.st"), &entry).is_ok(),
+            1 => std::fs::write(&entry, [0xEFu8, 0xBB, 0xBF, 0xFF, 0xFE, 0x41]).is_ok(),
+            _ => std::fs::write(&entry, [0xFFu8, 0xFE, 0x41]).is_ok(),
+        };
+        if made {
+            let bads = bad.to_string_lossy().to_string();
+            let mut arg_sets: Vec<Vec<String>> = vec![vec!["check".to_string(), bads.clone()]];
+            // the same entries named one by one
+            let mut listed = vec!["check".to_string()];
+            for i in 0..files.len() {
+                listed.push(bad.join(crate::drive::set_file_name(i)).to_string_lossy().to_string());
+            }
+            listed.push(entry.to_string_lossy().to_string());
+            arg_sets.push(listed);
+            for args in arg_sets {
+                if let Some(o) = observe_check(&args) {
+                    if counting {
+                        stats.class("check.directory.with-unloadable-entry");
+                    }
+                    let what = if args.len() == 2 { "check <dir with an entry that cannot be loaded>" } else { "check <files ...> <entry that cannot be loaded>" };
+                    channels_agree(&o, codes, what).map_err(|(k, d)| fail("channels", &k, d))?;
+                    if o.status == Some(0) {
+                        return Err(fail("directory", "unloadable-entry-ignored", format!("`{}` exits 0 although one entry cannot be read / decoded (stderr codes {:?})", what, o.diags.iter().map(|d| d.code.clone()).collect::<Vec<_>>())));
+                    }
+                }
+            }
+        }
+    }
     // (b2) the same set reached twice: the directory plus one of its files, or one file under two
     // spellings (relative, ./, dir/../dir) - still the same set of files
     if choice.ratio(1, 3) && gates.want("SAME_FILE_REACHED_TWICE") {
